@@ -12,7 +12,7 @@ ID = "C02"
 LEVEL = "exploration"
 RULE = (
     "Hypothesis-constructed call-heavy programs x option vectors over the 8 booleans (quick: default + all-true + "
-    "all-false + 10 drawn vectors per program; thorough: all 256 for every 8th program, 40 drawn otherwise); oracle: "
+    "all-false + 10 drawn vectors per program; thorough: 42 vectors per program plus all 256 vectors on a further 8 programs per shard); oracle: "
     "the effect trace of the emitted IC10 on the reference machine under each vector equals the trace under the "
     "default vector (same generated device environment); second arm: the vector given through a '# pytrapic:' line "
     "with API defaults must give textually identical code to the API arm. Non-trivial: >= 2 textually different "
@@ -156,8 +156,8 @@ def run_shard(ctx):
     if ctx.quick():
         hyp_search(ctx, cases(10), lambda c: check_case(c, ctx.stats, K), 22)
     else:
-        hyp_search(ctx, cases(40), lambda c: check_case(c, ctx.stats, K), 700)
-        hyp_search(ctx, cases(0, all256=True), lambda c: check_case(c, ctx.stats, K), 90, label="all256")
+        hyp_search(ctx, cases(40), lambda c: check_case(c, ctx.stats, K), 90)
+        hyp_search(ctx, cases(0, all256=True), lambda c: check_case(c, ctx.stats, K), 8, label="all256")
 
 
 def replay(case):
